@@ -151,6 +151,13 @@ def spec_counts(pre, hist, kw):
     return cnt
 
 
+def lowered(s):
+    """s lower-cased as far as that keeps every character in place: a character
+    whose lower() is not one character (U+0130) stays as it is.  Equal to
+    s.lower() whenever that has the length of s."""
+    return "".join(c.lower() if len(c.lower()) == 1 else c for c in s)
+
+
 def tile_ok(pw, secs):
     """exists a split of pw into pieces equal to the section texts (a W text is
     the lower-cased piece)"""
@@ -160,7 +167,8 @@ def tile_ok(pw, secs):
         text, lab = secs[i]
         if lab == "W":
             for n in range(0, len(text) + 1):
-                if pw[pos:pos + n].lower() == text and go(pos + n, i + 1):
+                piece = pw[pos:pos + n]
+                if (piece.lower() == text or lowered(piece) == text) and go(pos + n, i + 1):
                     return True
             return False
         return pw[pos:pos + len(text)] == text and go(pos + len(text), i + 1)
@@ -180,7 +188,7 @@ def expected_counters(all_secs):
             if t == "K":
                 li("count_keyboard", text)
             elif t == "A":
-                li("count_alpha", text.lower())
+                li("count_alpha", lowered(text))
                 li("count_alpha_masks", "".join("U" if c.isupper() else "L" for c in text))
             elif t == "D":
                 li("count_digits", text)
@@ -194,7 +202,7 @@ def expected_counters(all_secs):
                 f["count_website_urls"][text] += 1
                 sup = False
             elif t == "E":
-                em = text.lower()
+                em = lowered(text)
                 f["count_emails"][em] += 1
                 f["count_email_providers"][em[em.find("@") + 1:]] += 1
                 sup = False
@@ -267,7 +275,7 @@ def oracle(kb, ctxs, tlds, kw, pre, hist, counts, mw, pws, secs_list, counters, 
                 while j + 1 < len(secs) and secs[j + 1][1] and secs[j + 1][1][0] == "A":
                     j += 1
                 if j > i:
-                    parts = [secs[k][0].lower() for k in range(i, j + 1)]
+                    parts = [lowered(secs[k][0]) for k in range(i, j + 1)]
                     whole = "".join(parts)
                     thr = kw["threshold"]
                     if counts.get(whole, 0) >= thr or any(counts.get(p, 0) < thr for p in parts):
